@@ -437,6 +437,10 @@ type DstScript struct {
 	LatencyAt map[int]int `json:",omitempty"`
 	// PerRecordAcks: one response per record instead of one per request.
 	PerRecordAcks bool
+	// CoalesceAcks: requests that are already waiting when a response is due are
+	// answered together, in ONE response carrying the acks of all of them in write
+	// order (what a batching destination does). Nothing is withheld.
+	CoalesceAcks bool `json:",omitempty"`
 	// Shape: write ordinal of the session (1-based, counted in records)
 	// -> hostile reply: "wrongpos" | "extra" | "drop" | "swap" | "streamerr" | "emptyacks"
 	Shape map[int]string
@@ -711,6 +715,20 @@ func (s *dstSession) Run(ctx context.Context, stream pconnector.DestinationRunSt
 			case <-ctx.Done():
 				st.p.blocked.Add(-1)
 				return nil
+			}
+		}
+		if st.Script.CoalesceAcks {
+		drain:
+			for {
+				select {
+				case more, ok := <-queue:
+					if !ok {
+						break drain
+					}
+					items = append(items, more...)
+				default:
+					break drain
+				}
 			}
 		}
 		var acks []pconnector.DestinationRunResponseAck
